@@ -26,6 +26,8 @@
 #endif
 int vf_mon_dummy;
 int vf_mon_held;
+int vf_mon_owner; /* abstraction of the owner bookkeeping of a recursive mutex: valid (1) after ABTI_mutex_lock, cleared by ABTI_mutex_unlock, untouched by the *_no_recursion variants */
+unsigned vf_mon_locks_nr, vf_mon_unlocks_nr;
 int vf_mon_waited; /* a cond_wait happened since the harness cleared it */
 const void *vf_mon_mutex;
 unsigned vf_mon_locks, vf_mon_unlocks, vf_mon_cwaits, vf_mon_bcasts, vf_mon_clock, vf_t_mon_bcast, vf_t_mon_unlock, vf_t_mon_lock;
@@ -33,12 +35,12 @@ unsigned vf_mon_locks, vf_mon_unlocks, vf_mon_cwaits, vf_mon_bcasts, vf_mon_cloc
 
 static inline void ABTI_mutex_lock(ABTI_local **pp_local, ABTI_mutex *p_mutex)
 __CPROVER_requires(vf_mon_held == 0)
-__CPROVER_assigns(*pp_local, vf_mon_held, vf_mon_mutex, vf_mon_locks, VF_MON_CLOCK, vf_t_mon_lock, VF_MON_HAVOC
+__CPROVER_assigns(*pp_local, vf_mon_held, vf_mon_owner, vf_mon_mutex, vf_mon_locks, VF_MON_CLOCK, vf_t_mon_lock, VF_MON_HAVOC
 #ifdef VF_MON_LOCK_GHOST
                   , VF_MON_LOCK_GHOST
 #endif
                   )
-__CPROVER_ensures(vf_mon_held == 1 && vf_mon_mutex == p_mutex && vf_mon_locks == __CPROVER_old(vf_mon_locks) + 1)
+__CPROVER_ensures(vf_mon_held == 1 && vf_mon_owner == 1 && vf_mon_mutex == p_mutex && vf_mon_locks == __CPROVER_old(vf_mon_locks) + 1)
 __CPROVER_ensures(VF_MON_CLOCK == __CPROVER_old(VF_MON_CLOCK) + 1 && vf_t_mon_lock == VF_MON_CLOCK)
 __CPROVER_ensures(VF_MON_INV)
 __CPROVER_ensures(VF_MON_ENV)
@@ -47,8 +49,23 @@ __CPROVER_ensures(VF_MON_LOCK_POST);
 static inline void ABTI_mutex_unlock(ABTI_local *p_local, ABTI_mutex *p_mutex)
 __CPROVER_requires(vf_mon_held == 1 && vf_mon_mutex == p_mutex)
 __CPROVER_requires(VF_MON_INV) /* the invariant is re-established at every release */
-__CPROVER_assigns(vf_mon_held, vf_mon_unlocks, VF_MON_CLOCK, vf_t_mon_unlock)
-__CPROVER_ensures(vf_mon_held == 0 && vf_mon_unlocks == __CPROVER_old(vf_mon_unlocks) + 1)
+__CPROVER_assigns(vf_mon_held, vf_mon_owner, vf_mon_unlocks, VF_MON_CLOCK, vf_t_mon_unlock)
+__CPROVER_ensures(vf_mon_held == 0 && vf_mon_owner == 0 && vf_mon_unlocks == __CPROVER_old(vf_mon_unlocks) + 1)
+__CPROVER_ensures(VF_MON_CLOCK == __CPROVER_old(VF_MON_CLOCK) + 1 && vf_t_mon_unlock == VF_MON_CLOCK);
+
+/* the variants that skip the owner/recursion bookkeeping: same effect on the lock itself */
+static inline void ABTI_mutex_lock_no_recursion(ABTI_local **pp_local, ABTI_mutex *p_mutex)
+__CPROVER_requires(vf_mon_held == 0)
+__CPROVER_assigns(*pp_local, vf_mon_held, vf_mon_mutex, vf_mon_locks, vf_mon_locks_nr, VF_MON_CLOCK, vf_t_mon_lock, VF_MON_HAVOC)
+__CPROVER_ensures(vf_mon_held == 1 && vf_mon_mutex == p_mutex && vf_mon_locks == __CPROVER_old(vf_mon_locks) + 1 && vf_mon_locks_nr == __CPROVER_old(vf_mon_locks_nr) + 1)
+__CPROVER_ensures(VF_MON_CLOCK == __CPROVER_old(VF_MON_CLOCK) + 1 && vf_t_mon_lock == VF_MON_CLOCK)
+__CPROVER_ensures(VF_MON_INV)
+__CPROVER_ensures(VF_MON_ENV);
+static inline void ABTI_mutex_unlock_no_recursion(ABTI_local *p_local, ABTI_mutex *p_mutex)
+__CPROVER_requires(vf_mon_held == 1 && vf_mon_mutex == p_mutex)
+__CPROVER_requires(VF_MON_INV)
+__CPROVER_assigns(vf_mon_held, vf_mon_unlocks, vf_mon_unlocks_nr, VF_MON_CLOCK, vf_t_mon_unlock)
+__CPROVER_ensures(vf_mon_held == 0 && vf_mon_unlocks == __CPROVER_old(vf_mon_unlocks) + 1 && vf_mon_unlocks_nr == __CPROVER_old(vf_mon_unlocks_nr) + 1)
 __CPROVER_ensures(VF_MON_CLOCK == __CPROVER_old(VF_MON_CLOCK) + 1 && vf_t_mon_unlock == VF_MON_CLOCK);
 
 #ifndef VF_MON_NO_COND
